@@ -106,7 +106,13 @@ def set_value_sanitised(ctx, rule='A6'):
     s = stores[-1]
     from ..flow import Slice
     sl = Slice(fn)
-    origins = [v for _, v, _, _ in sl.origins(s.ast.value, s) if v is not None] + [s.ast.value]
+    own = fn.params[1] if len(fn.params) > 1 else None
+    lstores = [x for x in stores if norm(x.ast.targets[0].slice) != own] or [s]
+    if len({norm(x.ast.targets[0].slice) for x in lstores}) != 1:
+        raise AnalysisError('set_des_var_value: stores for more than one kind of linked node key')
+    s = lstores[-1]
+    origins = [v for x in lstores for _, v, _, _ in sl.origins(x.ast.value, x) if v is not None] + \
+        [x.ast.value for x in lstores]
     # extract-method: a value computed by a private helper is read through the helper's returned expressions, with the
     # caller's arguments substituted for the parameters
     import copy
